@@ -30,6 +30,7 @@
 import PomerolModel.Spec.Bridge
 import PomerolModel.Spec.Blocks
 import PomerolModel.Spec.Gibbs
+import PomerolModel.Spec.Chi4PrepareSpec
 
 set_option linter.unusedSectionVars false
 
@@ -316,5 +317,102 @@ theorem spectrum_partition_independent {σ : Type} [Fintype σ] [DecidableEq σ]
   apply Multiset.map_injective Complex.ofReal_injective
   rw [Multiset.map_map, Multiset.map_map]
   exact hc
+
+/-! ### two-particle Green's function: the world-stripe selection -/
+
+section stripes
+open Pomerol.Model.Chi4Prepare Pomerol.Spec.Chi4PrepareSpec Pomerol.Spec.Chi4Refine
+open Pomerol.Model.Chi4Part (SpMat)
+
+/-- WORLD-STRIPE SELECTION.  The parts `TwoParticleGF::prepare` creates depend on the partition: the
+blocks, their numbering, the block bimaps of the four operators and hence the list of selected stripes
+are all different for a different set of symmetry operations.  What the parts add up to is not:
+for ANY block structure -- any numbering `e` of the eigenstates by (block, index in block), any bimaps
+`bm`, `cx4` that are graphs of partial injective maps and list every non-zero block of the renumbered
+operator matrices, any faithful compressed copies of the blocks -- the signed sum over the selected
+stripes of what their parts accumulate is `d.chiLehmann O X z`, and the stripes of ordering `p` add up
+to `d.orderedLehmann …`: sums over all eigenstates in which no block occurs.  Consequently two partitions
+`e₁`, `e₂` of the same eigen-data give the same value (both sides below are equal to `d.chiLehmann O X z`),
+and at fermionic frequencies this value is the definition `d.chiDef O X z`
+(`two_particle_partition_independent`). -/
+theorem stripe_selection_partition_independent (d : EigenData ι)
+    (O : Fin 3 → Matrix ι ι ℂ) (X : Matrix ι ι ℂ) (z : Fin 3 → ℂ)
+    {nB₁ : ℕ} {sz₁ : Fin nB₁ → ℕ} (e₁ : ι ≃ GFRefine.Basis sz₁)
+    (R₁ C₁ : Fin 3 → Fin nB₁ → Fin nB₁ → SpMat ℂ) (CX₁ : Fin nB₁ → Fin nB₁ → SpMat ℂ)
+    (hR₁ : ∀ k b b', RowMajorOf (R₁ k b b') (blockOf (Matrix.reindex e₁ e₁ (O k)) b b'))
+    (hC₁ : ∀ k b b', ColMajorOf (C₁ k b b') (blockOf (Matrix.reindex e₁ e₁ (O k)) b b'))
+    (hX₁ : ∀ b b', ColMajorOf (CX₁ b b') (blockOf (Matrix.reindex e₁ e₁ X) b b'))
+    (bm₁ : Fin 3 → BlockMap) (cx4₁ : BlockMap) (hbm₁ : ∀ k, IsBimap (bm₁ k))
+    (h4₁ : RightUnique cx4₁)
+    (hO₁ : ∀ k, GFRefine.CoversBlocks (bm₁ k) (Matrix.reindex e₁ e₁ (O k)))
+    (hX4₁ : GFRefine.CoversBlocks cx4₁ (Matrix.reindex e₁ e₁ X))
+    {nB₂ : ℕ} {sz₂ : Fin nB₂ → ℕ} (e₂ : ι ≃ GFRefine.Basis sz₂)
+    (R₂ C₂ : Fin 3 → Fin nB₂ → Fin nB₂ → SpMat ℂ) (CX₂ : Fin nB₂ → Fin nB₂ → SpMat ℂ)
+    (hR₂ : ∀ k b b', RowMajorOf (R₂ k b b') (blockOf (Matrix.reindex e₂ e₂ (O k)) b b'))
+    (hC₂ : ∀ k b b', ColMajorOf (C₂ k b b') (blockOf (Matrix.reindex e₂ e₂ (O k)) b b'))
+    (hX₂ : ∀ b b', ColMajorOf (CX₂ b b') (blockOf (Matrix.reindex e₂ e₂ X) b b'))
+    (bm₂ : Fin 3 → BlockMap) (cx4₂ : BlockMap) (hbm₂ : ∀ k, IsBimap (bm₂ k))
+    (h4₂ : RightUnique cx4₂)
+    (hO₂ : ∀ k, GFRefine.CoversBlocks (bm₂ k) (Matrix.reindex e₂ e₂ (O k)))
+    (hX4₂ : GFRefine.CoversBlocks cx4₂ (Matrix.reindex e₂ e₂ X)) :
+    ((prepare (fun _ => true) (bm₁ 0) (bm₁ 1) (bm₁ 2) cx4₁).map fun s =>
+        ((permEntry s.1).2 : ℂ) * stripeValue (reindexData d e₁) z R₁ C₁ CX₁ s).sum
+      = d.chiLehmann O X z ∧
+    ((prepare (fun _ => true) (bm₁ 0) (bm₁ 1) (bm₁ 2) cx4₁).map fun s =>
+        ((permEntry s.1).2 : ℂ) * stripeValue (reindexData d e₁) z R₁ C₁ CX₁ s).sum
+      = ((prepare (fun _ => true) (bm₂ 0) (bm₂ 1) (bm₂ 2) cx4₂).map fun s =>
+        ((permEntry s.1).2 : ℂ) * stripeValue (reindexData d e₂) z R₂ C₂ CX₂ s).sum ∧
+    ∀ p : Fin 6,
+      ((stripesOf p.1 (prepare (fun _ => true) (bm₁ 0) (bm₁ 1) (bm₁ 2) cx4₁)).map
+          (stripeValue (reindexData d e₁) z R₁ C₁ CX₁)).sum
+        = d.orderedLehmann (O (permFn p 0)) (O (permFn p 1)) (O (permFn p 2)) X
+            (z (permFn p 0)) (z (permFn p 1)) (z (permFn p 2)) := by
+  obtain ⟨a1, b1⟩ := selected_stripes_sum_partition_free d O X z e₁ R₁ C₁ CX₁ hR₁ hC₁ hX₁ bm₁ cx4₁
+    hbm₁ h4₁ hO₁ hX4₁
+  obtain ⟨-, b2⟩ := selected_stripes_sum_partition_free d O X z e₂ R₂ C₂ CX₂ hR₂ hC₂ hX₂ bm₂ cx4₂
+    hbm₂ h4₂ hO₂ hX4₂
+  exact ⟨b1, b1.trans b2.symm, a1⟩
+
+/-- NON-VACUITY: the hypotheses hold for every system whose eigenbasis is treated as ONE block of `n`
+states (arbitrary operator matrices, every block stored entry by entry, all four bimaps `{0 ↦ 0}`), with
+the eigenstates numbered in two ways that differ by an arbitrary permutation `σ`; the two evaluations
+agree. -/
+example {n : ℕ} (d : EigenData (GFRefine.Basis (fun _ : Fin 1 => n)))
+    (O : Fin 3 → Matrix (GFRefine.Basis (fun _ : Fin 1 => n)) (GFRefine.Basis (fun _ : Fin 1 => n)) ℂ)
+    (X : Matrix (GFRefine.Basis (fun _ : Fin 1 => n)) (GFRefine.Basis (fun _ : Fin 1 => n)) ℂ)
+    (z : Fin 3 → ℂ)
+    (σ : GFRefine.Basis (fun _ : Fin 1 => n) ≃ GFRefine.Basis (fun _ : Fin 1 => n)) :
+    ((prepare (fun _ => true) [(0, 0)] [(0, 0)] [(0, 0)] [(0, 0)]).map fun s =>
+        ((permEntry s.1).2 : ℂ) * stripeValue (reindexData d (Equiv.refl _)) z
+          (fun k b b' => storeRows (fun _ => true)
+            (blockOf (Matrix.reindex (Equiv.refl _) (Equiv.refl _) (O k)) b b'))
+          (fun k b b' => storeRows (fun _ => true)
+            (blockOf (Matrix.reindex (Equiv.refl _) (Equiv.refl _) (O k)) b b')ᵀ)
+          (fun b b' => storeRows (fun _ => true)
+            (blockOf (Matrix.reindex (Equiv.refl _) (Equiv.refl _) X) b b')ᵀ) s).sum
+      = ((prepare (fun _ => true) [(0, 0)] [(0, 0)] [(0, 0)] [(0, 0)]).map fun s =>
+        ((permEntry s.1).2 : ℂ) * stripeValue (reindexData d σ) z
+          (fun k b b' => storeRows (fun _ => true) (blockOf (Matrix.reindex σ σ (O k)) b b'))
+          (fun k b b' => storeRows (fun _ => true) (blockOf (Matrix.reindex σ σ (O k)) b b')ᵀ)
+          (fun b b' => storeRows (fun _ => true) (blockOf (Matrix.reindex σ σ X) b b')ᵀ) s).sum := by
+  have hcov : ∀ M : Matrix (GFRefine.Basis (fun _ : Fin 1 => n))
+      (GFRefine.Basis (fun _ : Fin 1 => n)) ℂ, GFRefine.CoversBlocks [(0, 0)] M := by
+    intro M L R _
+    have hL : L.1 = 0 := by omega
+    have hR : R.1 = 0 := by omega
+    rw [hL, hR]
+    exact List.mem_singleton.mpr rfl
+  exact (stripe_selection_partition_independent d O X z (Equiv.refl _) _ _ _
+    (fun k b b' => storeRows_rowMajorOf _ (fun _ h => by simp at h) _)
+    (fun k b b' => storeRows_colMajorOf _ (fun _ h => by simp at h) _)
+    (fun b b' => storeRows_colMajorOf _ (fun _ h => by simp at h) _)
+    (fun _ => [(0, 0)]) [(0, 0)] (fun _ => by decide) (by decide) (fun _ => hcov _) (hcov _)
+    σ _ _ _
+    (fun k b b' => storeRows_rowMajorOf _ (fun _ h => by simp at h) _)
+    (fun k b b' => storeRows_colMajorOf _ (fun _ h => by simp at h) _)
+    (fun b b' => storeRows_colMajorOf _ (fun _ h => by simp at h) _)
+    (fun _ => [(0, 0)]) [(0, 0)] (fun _ => by decide) (by decide) (fun _ => hcov _) (hcov _)).2.1
+
+end stripes
 
 end Pomerol.Properties.C08
